@@ -148,7 +148,7 @@ class Signal(np.lib.mixins.NDArrayOperatorsMixin):
                 )
                 if loop is not None:
                     in_arr = tuple(
-                        a if type(a) in weak else a.astype(dt)
+                        np.asarray(a).astype(dt)[()] if type(a) in weak else a.astype(dt)
                         for a, dt in zip(in_arr, resolved)
                     )
 
@@ -438,7 +438,9 @@ class Signal(np.lib.mixins.NDArrayOperatorsMixin):
         :py:func:`dask.array.rechunk`.
         """
         if chunks is None:
-            chunks = (-1,) + ("auto",) * (self.ndim - 1)
+            # ("auto" cannot size the chunks of an array without elements)
+            auto = "auto" if self.data.size else -1
+            chunks = (-1,) + (auto,) * (self.ndim - 1)
 
         x = dask.array.asanyarray(self.data)
         return type(self).like(self, x.rechunk(chunks, **kwargs))
